@@ -98,7 +98,11 @@ struct Sys {
       if (hc) hc->handleMessage(m); else hm->handleMessage(m);
    }
    void stop() { hc.reset(); hm.reset(); }
-   void abandon() { (void)hc.release(); (void)hm.release(); }       // crash: no destructor runs (the object is leaked on purpose)
+   // crash: the object is abandoned - no destructor runs before the next handler starts. The abandoned objects are kept in a
+   // graveyard and only destroyed when the whole history (with all its checks) is over: all data is flushed after every message,
+   // so the late destructor only closes a file descriptor (otherwise the worker would run out of descriptors).
+   std::vector<std::unique_ptr<files::Handler<files::Counted>>> gc; std::vector<std::unique_ptr<files::Handler<files::MaxSize>>> gm;
+   void abandon() { if (hc) gc.push_back(std::move(hc)); if (hm) gm.push_back(std::move(hm)); }
    std::string counters() { if (hc) return "entries=" + std::to_string(hc->mpFilePolicy->mNumberOfEntries); if (hm) return "size=" + std::to_string(hm->mpFilePolicy->mCurrentFilesize); return ""; }
 };
 
